@@ -2329,9 +2329,12 @@ public:
     SBEPP_CPP20_CONSTEXPR std::size_t operator()(size_bytes_tag) const noexcept
     {
         auto dimension = (*this)(get_header_tag{});
+        // multiply as `std::size_t`, otherwise narrow header types are promoted
+        // to (signed) `int` or wrap around as 32-bit unsigned values
         return sbepp::size_bytes(dimension)
-               + dimension.numInGroup().value()
-                     * dimension.blockLength().value();
+               + static_cast<std::size_t>(dimension.numInGroup().value())
+                     * static_cast<std::size_t>(
+                         dimension.blockLength().value());
     }
 
     //! @brief Returns header's `numInGroup`
